@@ -944,6 +944,9 @@ def oracle(ctx, intensive: bool = False, hints: List[Dict[str, Any]] = ()) -> C.
                     break
                 sched = _an.SCHEDS[(k + rep) % 4]
                 p = sweep_case(order, cross, int(rng.integers(0, 2 ** 31 - 1)), scheduler=sched, N=int(rng.choice([20000, 12000, 30011])))
+                if ctx.thorough and rep == 0:                  # every thread count 1..ncpu, more chunk sizes
+                    p["threads"] = list(range(1, max_threads() + 1))
+                    p["chunks"] = [0, 1, 2, 5, 17, 64]
                 p["opts"]["olap"] = float(rng.choice([0.9, 0.95, 0.8]))
                 p["opts"]["Kdes"] = int(rng.choice([50, 200]))
                 if k % 3 == 2:
@@ -980,7 +983,7 @@ def oracle(ctx, intensive: bool = False, hints: List[Dict[str, Any]] = ()) -> C.
                 child = child_out[c][k:k + 2] if len(child_out[c]) >= k + 2 else None
         run_payload(P, p, child=child)
     # 4. attribute access order
-    for i in range(ctx.scale(12, 160) * mult):
+    for i in range(ctx.scale(12, 300) * mult):
         if out_of_time():
             break
         p = gen_attrs(rng, i, ctx.thorough)
@@ -989,7 +992,7 @@ def oracle(ctx, intensive: bool = False, hints: List[Dict[str, Any]] = ()) -> C.
             P.sample({"op": "attrs", "source": p["source"], "cross": p["cross"], "pseed": p["pseed"]})
 
     # 2./3. repetition and interleaving on one analyzer
-    for i in range(ctx.scale(22, 400) * mult):
+    for i in range(ctx.scale(22, 800) * mult):
         if out_of_time():
             break
         c = gen_case(rng, edge=(i % 6 == 5))
